@@ -105,7 +105,8 @@ def run(module: str,
     """Run TLC on spec/<module>.tla with spec/<cfg>; returns parsed result."""
     cwd = cwd or SPEC
     meta = workdir("meta")
-    jopts = [f"-Xmx{heap}", "-XX:+UseParallelGC", f"-DTLA-Library={SPEC}"]
+    # java.io.tmpdir: TLC unpacks its module jars into a fresh temporary directory on every start and leaves it behind
+    jopts = [f"-Xmx{heap}", "-XX:+UseParallelGC", f"-DTLA-Library={SPEC}", f"-Djava.io.tmpdir={meta}"]
     if dfs:
         jopts.append("-Dtlc2.tool.queue.IStateQueue=StateDeque")
     cmd = ["java", *jopts, "-cp", JAR, "tlc2.TLC", "-workers", str(workers), "-metadir", str(meta),
